@@ -573,18 +573,32 @@ def Row.listing : Row → Bool
 
 /-! ### well-formedness of the table (what C02 establishes about a real System) -/
 
-/-- ids in range, parents numbered before children, `contents` and `parent` agree, roots have no
-parent, members have one, qualified names are pairwise different -/
+/-- per object: a parentless object is a module, a parent is numbered lower and one of the two has
+its own page; `contents` is in range, agrees with `parent`, and has pairwise different names -/
+def wfObj (s : Sys) (i : Nat) : Bool :=
+  (match (s.ob i).parent with
+    | none => (s.ob i).kind.isModule
+    | some p => decide (p < i) && ((s.ob i).kind.ownPage || (s.ob p).kind.ownPage))
+  && (s.ob i).contents.all (fun c => decide (c < s.n) && (s.ob c).parent == some i)
+  && (s.ob i).contents.all (fun c => (s.ob i).contents.all fun d => c == d || (s.ob c).name != (s.ob d).name)
+
+/-- qualified names are pairwise different (`allobjects` is keyed by them) -/
+def namesDistinct (s : Sys) : Bool :=
+  (List.range s.n).all fun i => (List.range s.n).all fun j => i == j || fullName s i != fullName s j
+
+/-- no member is *named* like the qualified name of another member (the two `<a name>` spellings of
+`#childList` cannot be confused) -/
+def spellingsApart (s : Sys) : Bool :=
+  (List.range s.n).all fun i => (List.range s.n).all fun j =>
+    (s.ob j).parent == none || (s.ob i).name != fullName s j
+
+/-- what C02 establishes about the registry of a real System, as far as this layer relies on it -/
 def wf (s : Sys) : Bool :=
-  (List.range s.n).all (fun i =>
-    (match (s.ob i).parent with
-      | none => (s.ob i).kind.isModule
-      | some p => p < i)
-    && (s.ob i).contents.all (fun c => c < s.n && (s.ob c).parent == some i)
-    && (s.ob i).contents.all (fun c => (s.ob i).contents.all fun d => c == d || (s.ob c).name != (s.ob d).name))
-  && s.roots.all (fun r => r < s.n && (s.ob r).parent == none)
-  && s.all.all (· < s.n)
-  && (List.range s.n).all (fun i => (List.range s.n).all fun j => i == j || fullName s i != fullName s j)
+  (List.range s.n).all (wfObj s)
+  && s.roots.all (fun r => decide (r < s.n) && (s.ob r).parent == none)
+  && s.all.all (fun i => decide (i < s.n))
+  && namesDistinct s
+  && spellingsApart s
 
 /-- the object is not in the `contents` of its parent (a duplicate leftover `'x 0'`), nor a root -/
 def superseded (s : Sys) (i : Nat) : Bool :=
